@@ -313,13 +313,9 @@ def run(ctx) -> None:
     ctx.evaluations += sum(len(t["ev"]) for t in traces) + sum(len(t["ev"]) for t in rtraces)
     ctx.extra["trace_wall_s"] = round(time.time() - t0, 1)
 
-    # ---- anti-vacuity: every action of the model is taken (thorough tier, cheap single run) ------------
-    if thorough:
-        cfgp = _cfg(ctx.scratch, "LinkedSetMC_prop.cfg", "cov.cfg", NElem=3, MaxBox=8, NCur=2, InitIds=_set([0, 6]),
-                    DirIds=_set([2]), MaxDepth=3, PairMode=1, WithRej="TRUE")
-        res = ctx.tlc(os.path.join(LS, "LinkedSetMC.tla"), cfgp, tag="coverage", coverage=True, deadlock=False, workers=4, count=False)
-        ctx.extra["coverage_actions"] = {k: v for k, v in res.coverage.items() if k.startswith("LinkedSetMC!")}
-
+    # anti-vacuity: TLC's -coverage cannot be used on this specification (its cost-model construction does not
+    # terminate on the operator-argument structure of LinkedSet.tla); instead every behaviour replayed is counted
+    # by its last action and outcome (coverage.last_action_by_outcome) and must cover the whole alphabet
     # ---- accounting ---------------------------------------------------------------------------------
     for k in nontriv:
         ctx._distinct.add("|".join(map(str, k)))
@@ -329,6 +325,10 @@ def run(ctx) -> None:
         out = next((x for x in k[2:] if x in ("ok", "rej", "yield", "stop")), "?")
         ops[f"{k[0]}:{k[1]}:{out}"] = ops.get(f"{k[0]}:{k[1]}:{out}", 0) + v
     ctx.extra["last_action_by_outcome"] = dict(sorted(ops.items()))
+    want = {f"ls:{op}:ok" for op in ("AP", "EX", "IA", "IB", "RM", "SO")} | {"ls:IA:rej", "ls:IB:rej", "ls:RM:rej", "ls:ST:yield", "ls:ST:stop",
+            "rec:ST:yield", "rec:ST:stop", "rec:IA:ok", "rec:IB:ok", "rec:RM:ok", "rec:AP:ok", "rec:SO:ok"}
+    if not ctx.violations and want - set(ops):
+        raise MachineryError(f"replay did not exercise {sorted(want - set(ops))}")
     ctx.extra["divergences"] = div_total
     ctx.extra["traces_recorded"] = len(traces) + len(rtraces)
     ctx.extra["trace_events"] = sum(len(t["ev"]) for t in traces) + sum(len(t["ev"]) for t in rtraces)
